@@ -4786,7 +4786,7 @@ fn name_change(original: &str) -> String {
     }
     let (first_part, rest) = original.split_at(split_pos);
 
-    let mut new_name = format!("{first_part} (2)");
+    let mut new_name = fit_label(first_part, " (2)");
 
     // check if there is already has `(<num>)` suffix.
     if let Some(paren_pos) = first_part.rfind(" (") {
@@ -4799,13 +4799,24 @@ fn name_change(original: &str) -> String {
                                                // Try to parse the number between parentheses
                 if let Ok(number) = first_part[num_start..absolute_end_pos].parse::<u32>() {
                     let base_name = &first_part[..paren_pos];
-                    new_name = format!("{} ({})", base_name, number + 1)
+                    new_name = fit_label(base_name, &format!(" ({})", number.wrapping_add(1)))
                 }
             }
         }
     }
 
     format!("{new_name}{rest}")
+}
+
+/// Appends `suffix` to `base`, shortening `base` if needed so that the label
+/// stays encodable (at most 63 bytes).
+fn fit_label(base: &str, suffix: &str) -> String {
+    const LABEL_LEN_MAX: usize = 63;
+    let mut end = base.len().min(LABEL_LEN_MAX.saturating_sub(suffix.len()));
+    while !base.is_char_boundary(end) {
+        end -= 1;
+    }
+    format!("{}{}", &base[..end], suffix)
 }
 
 /// Returns a new name based on the `original` to avoid conflicts.
@@ -4821,14 +4832,14 @@ fn hostname_change(original: &str) -> String {
         return format!("{original}-2");
     };
 
-    let mut new_name = format!("{first_part}-2");
+    let mut new_name = fit_label(first_part, "-2");
 
     // check if there is already a `-<num>` suffix
     if let Some(hyphen_pos) = first_part.rfind('-') {
         // Try to parse everything after the hyphen as a number
         if let Ok(number) = first_part[hyphen_pos + 1..].parse::<u32>() {
             let base_name = &first_part[..hyphen_pos];
-            new_name = format!("{}-{}", base_name, number + 1);
+            new_name = fit_label(base_name, &format!("-{}", number.wrapping_add(1)));
         }
     }
 
